@@ -43,7 +43,7 @@ func sentinelsIn(err error) []*sim.SentinelError {
 // errnoPick draws what an injected failure wraps: nothing, or an errno a real socket call fails with
 // (the permission class among them: errors.Is(err, os.ErrPermission) holds for EPERM and EACCES).
 func errnoPick(rng *rand.Rand) string {
-	return pick(rng, "", "", "EPERM", "EACCES", "ENOBUFS", "EINVAL", "ENETDOWN", "EHOSTUNREACH", "EMSGSIZE", "ErrPermission")
+	return pick(rng, "", "", "EPERM", "EACCES", "ENOBUFS", "EINVAL", "ENETDOWN", "EHOSTUNREACH", "EMSGSIZE", "ErrPermission", "ETIMEDOUT", "EAGAIN")
 }
 
 func exposes(err error, f sim.FiredFault) bool {
@@ -66,6 +66,9 @@ func handleViolations(out *sim.Outcome, variant string) []Violation {
 		if len(ep.UseAfterClose) > 0 {
 			vs = append(vs, Violation{Rule: "C10.use-after-close", Detail: fmt.Sprintf("%s: %v called after Close", ep.Actor, ep.UseAfterClose), Facts: facts("variant", variant)})
 		}
+	}
+	if len(out.LeakedSockets) > 0 {
+		vs = append(vs, Violation{Rule: "C10.socket-leak", Detail: fmt.Sprintf("after the run the process still holds %d socket(s) it did not hold before it (%v): something the run opened (a reserved local port, a connection) was never closed", len(out.LeakedSockets), out.LeakedSockets), Facts: facts("variant", variant)})
 	}
 	if out.Deadlock != "" && !out.NoReturn {
 		vs = append(vs, Violation{Rule: "C10.goroutine-leak", Detail: fmt.Sprintf("goroutines started by the run outlive the call: %s; still parked: %v", out.Deadlock, out.LeftParked), Facts: facts("variant", variant)})
